@@ -122,7 +122,16 @@ def master_of(wspec):
         return indep_seed(m, unstr(parts[2])), parts[4] == "1", m, unstr(parts[2])
     if parts[0] == "seedb":
         return unhex(parts[1]), parts[2] == "1", None, None
+    if parts[0] == "xkey":          # a depth-0 extended PRIVATE key: the master key is given directly
+        pl = b58check_dec(unstr(parts[1]))
+        ver = int.from_bytes(pl[:4], "big")
+        return ("mk", pl[46:78], pl[13:45]), ver in (0x04358394, 0x044A4E28, 0x045F18BC), None, None
     raise KeyError(parts[0])
+
+
+def _mk(seed):
+    """(master key bytes, chain code) of a wallet: from its seed, or given directly (wallets restored from a key)"""
+    return (seed[1], seed[2]) if isinstance(seed, tuple) else indep_master(seed)
 
 
 def xkey(ver, depth, fp, index, chain, key33):
@@ -131,7 +140,7 @@ def xkey(ver, depth, fp, index, chain, key33):
 
 def check_report(rep, seed, testnet, mn, pw, acct, a, b, filtered=False):
     """Independent recomputation of every row; returns message or None."""
-    mk = indep_master(seed)
+    mk = _mk(seed)
     k0, c0 = int.from_bytes(mk[0], "big"), mk[1]
     coin = 1 if testnet else 0
     if not filtered:
@@ -230,7 +239,7 @@ def oracle(line, out):
         if v is None:
             return "history failed"
         seed, testnet, mn, pw = master_of(tok[1])
-        if indep_master(seed) is None:
+        if _mk(seed) is None:
             return None
         for o, res in zip(tok[2].split(";"), v.split(" ; ")):
             if o.startswith("rep:"):
@@ -249,7 +258,7 @@ def oracle(line, out):
         for which, args, r in (("first (inspected after the second was produced)", tok[1:5], r1),
                                ("second", [w2] + tok[6:9], r2)):
             seed, testnet, mn, pw = master_of(args[0])
-            if indep_master(seed) is None:
+            if _mk(seed) is None:
                 continue
             msg = check_report(from_canon(r), seed, testnet, mn, pw, int(args[1]), int(args[2]), int(args[3]))
             if msg:
@@ -270,7 +279,7 @@ def oracle(line, out):
     if tok[0] == "generate":
         w, acct, a, b = tok[1], int(tok[2]), int(tok[3]), int(tok[4])
         seed, testnet, mn, pw = master_of(w)
-        if indep_master(seed) is None:
+        if _mk(seed) is None:
             return None
         if v is None:
             return "generate failed for a valid wallet/account/interval"
@@ -314,6 +323,17 @@ def _seq_cases(rng, tier):
     for i in range(n):
         yield "generate_seq %s 0 0 2 %s %d 0 3" % (ws[2 * i], ws[2 * i + 1], rng.choice([0, 1])), "held-report-other-wallet"
         yield "generate_seq %s 0 0 2 same %d %d %d" % (ws[2 * i], rng.choice([0, 1]), *rng.choice([(0, 2), (1, 4)])), "held-report-same-wallet"
+    # wallets whose MASTER keys share the 4-byte fingerprint (corpus of colliding keys, restored from depth-0 extended
+    # private keys), reports for the same account back to back in one process: nothing may be remembered per fingerprint
+    pairs = common.fp_pairs()
+    for ka, kb in (pairs[:2] if tier == "quick" else pairs[:10]):
+        for ca, cb in ((bytes(range(32)), bytes(range(32))), (bytes(range(32)), bytes(range(1, 33)))):
+            t = rng.random() < 0.3
+            ver = 0x04358394 if t else 0x0488ADE4
+            xa = xkey(ver, 0, bytes(4), 0, ca, b"\x00" + ka.to_bytes(32, "big"))
+            xb = xkey(ver, 0, bytes(4), 0, cb, b"\x00" + kb.to_bytes(32, "big"))
+            acct = rng.choice([0, 1, 7])
+            yield "generate_seq xkey:%s %d 0 2 xkey:%s %d 0 2" % (sx(xa), acct, sx(xb), acct), "fingerprint-collision-wallets"
 
 
 def extra_checks(rng, tier, g, info):
